@@ -670,6 +670,33 @@ def opUse (a : List String) : M String :=
      | _ => some "bad-op")
   | _ => some "bad-op"
 
+/-! ### header accessors -/
+
+def lookupStr : AlgLookup → String
+  | .found a => "ok:" ++ intStr a
+  | _ => "err"
+
+def opHAcc (a : List String) : M String :=
+  match a with
+  | ps :: ts :: cs :: _ =>
+    (match parseAll pMapOrNil ps, parseAll pValue ts, parseAll pMapOrNil cs with
+     | some h, some typ, some claims =>
+       let crit := match critical h with
+         | .ok none => "crit=absent"
+         | .ok (some l) => "crit=" ++ (GoVal.arr l).dump
+         | .panic => "panic"
+         | _ => "crit=err"
+       let (h1, st) := match setType h typ with
+         | .ok h' => (h', "ok")
+         | _ => (h, "err")
+       let (h2, sc) := match setCWTClaims h1 claims with
+         | .ok h' => (h', "ok")
+         | _ => (h1, "err")
+       some ("alg=" ++ lookupStr (algorithmOf h) ++ " pha=" ++ lookupStr (payloadHashAlgorithm h) ++ " " ++ crit
+         ++ " settype=" ++ st ++ " setcwt=" ++ sc ++ " after=" ++ dumpMap h2)
+     | _, _, _ => some "bad-op")
+  | _ => some "bad-op"
+
 /-! ### dispatch -/
 
 def runLine (line : String) : String :=
@@ -701,6 +728,7 @@ def runLine (line : String) : String :=
     | "new" :: a => opNew a
     | "hist" :: a => opHist a
     | "use" :: a => opUse a
+    | "hacc" :: a => opHAcc a
     | _ => some "bad-op"
   match r with
   | some s => s
